@@ -235,8 +235,10 @@ def strat_external(tier):
         'tokens': st.lists(token, min_size=1, max_size=5),
         'sep': st.sampled_from([' ', ',', ';']),
         'cmd': st.sampled_from(['echo', 'printf']),
-        'dtype': st.sampled_from([None, 'int64', 'float64', 'int32']),
-        'a0': st.integers(0, 1000), 'a1': st.integers(0, 1000), 'kwa': st.integers(0, 1000),
+        'dtype': st.sampled_from([None, 'int64', 'float64', 'int32', 'uint64']),
+        # positional values incl. 64-bit ids / timestamps that a float cannot hold exactly (only with a 64-bit integer result type)
+        'a0': st.one_of(st.integers(0, 1000), st.sampled_from([2 ** 53 + 1, 2 ** 62 + 12345, 2 ** 63 - 1])),
+        'a1': st.integers(0, 1000), 'kwa': st.integers(0, 1000),
         'state_seed': st.integers(0, 2 ** 32 - 1), 'index': st.integers(0, 6), 'bs': st.integers(1, 4),
         'batch_index': st.integers(0, 50),
         'mode': st.sampled_from(['direct', 'vectorized', 'model']),
@@ -253,6 +255,10 @@ def run_external(case):
     body = sep.join(case['tokens'])
     command = ('echo "%s"' % body) if case['cmd'] == 'echo' else ("printf '%%s\\n' \"%s\"" % body)
     dtype = case['dtype']
+    if case['a0'] > 1000 and dtype not in ('int64', 'uint64'):
+        case = dict(case, a0=case['a0'] % 1000)          # big values only where the result type can hold them
+    if case['mode'] == 'vectorized' and case['a0'] > 1000:
+        case = dict(case, a0=case['a0'] - 8)             # room for the per-row offsets
     np_dtype = np.dtype(dtype) if dtype else np.dtype(float)
     with must_not_raise(P, 'external_operation(%r)' % command):
         op = external_operation(command, process_result=dtype, sep=sep)
@@ -285,7 +291,7 @@ def run_external(case):
         vop = vectorize(op)
         rs = np.random.RandomState(case['state_seed'])
         word = int(rs.get_state()[1][0])
-        a0 = np.arange(bs) + case['a0']
+        a0 = np.arange(bs, dtype=np.int64) + np.int64(case['a0'])
         meta = {'batch_index': case['batch_index']}
         with must_not_raise(P, 'calling the vectorised external operation; ' + ctx):
             out = vop(a0, case['a1'], kwa=case['kwa'], random_state=rs, batch_size=bs, meta=meta)
@@ -349,7 +355,7 @@ CHECK = Check(
           'dtypes; direct, vectorised and inside a model. Non-trivial: mixed constant/batched inputs with batch >= 2; external with '
           'batch >= 2.'),
     parts=[Part('vectorize', run_vectorize, strategy=strat_vectorize, examples={'quick': 1500, 'thorough': 64000}),
-           Part('external', run_external, strategy=strat_external, examples={'quick': 120, 'thorough': 4800})],
+           Part('external', run_external, strategy=strat_external, examples={'quick': 320, 'thorough': 4800})],
     assumptions=['a POSIX shell with echo/printf is available', 'lists are constants for vectorize (only numpy arrays with ndim>0 are batched)'],
     design_ref='DESIGN.md section 4, C18',
     technique='Hypothesis-generated input layouts/templates and call histories against an explicit per-row loop and direct '
